@@ -463,7 +463,14 @@ def check_recursion(repo, res, facts, cg):
     plist = c04.provisional_sources(repo)
     for p in plist:
         g = p['fi']
-        b = p.get('bypass') or []
+        b = []
+        for c in p.get('bypass') or []:
+            # a call made before the marker is set matters only if it can come back to the guarded function: a repository function that
+            # (through the typed call graph) cannot reach it is a plain helper
+            targets = [t for t, _typed, node in cg.edges.get(g.key, []) if node is c]
+            if targets and all(g.key not in cg.reach(t, False) and t != g.key for t in targets):
+                continue
+            b.append(c)
         res.check('C08-R4', '%s guard is complete' % g.qual, not b, g.rel, b[0].lineno if b else g.node.lineno,
                   '%s makes the call `%s` after its re-entrancy test but before it sets the in-progress marker %s: that path '
                   'recurses unguarded (a cycle made only of such values recurses until RecursionError)'
